@@ -72,8 +72,10 @@ def run_case(case):
     if case["source"] == "fixedgrid":
         sol = jax.jit(ivpsolve.solve_fixed_grid(solver=cfg["solver"]))(cfg["prior"], grid=jnp.asarray(times))
     else:
-        sol = jax.jit(ivpsolve.solve_adaptive_save_at(solver=cfg["solver"], error=cfg["error"]))(
+        sol = jax.jit(ivpsolve.solve_adaptive_save_at(solver=cfg["solver"], error=cfg["error"], while_loop=configs.bounded_while()))(
             cfg["prior"], jnp.asarray(times), atol=1e-3, rtol=1e-3, dt0=0.05)
+    if not configs.adaptive_reached_end(sol, times[-1]):
+        raise util.Inconclusive("adaptive run hit its logical step budget")
     if not np.all(np.isfinite(np.asarray(sol.u.mean_flat))) or float(np.max(np.abs(np.asarray(sol.u.mean_flat)))) > 1e4:
         return {"violations": [], "obs": {"cases": 1, "exploded_skipped": 1}, "sigs": []}
     post = sol.solution_full.posterior
